@@ -259,6 +259,14 @@ func (e *Exec) checkModifies(fr *Frame, st *State, ret *ssa.Return, suffix strin
 		if _, ok := e.P.CS.Ghosts[m]; ok {
 			continue
 		}
+		if name, argSrc, ok := ghostFieldLoc(e.P, m); ok {
+			if argSrc == "*" {
+				allowedAll["GF_"+name] = true
+			} else if ex, err := parseExprSafe(argSrc); err == nil {
+				allowedAt["GF_"+name] = append(allowedAt["GF_"+name], e.evalExpr(oenv, ex).t())
+			}
+			continue
+		}
 		dot := strings.LastIndex(m, ".")
 		if dot < 0 {
 			continue
@@ -689,6 +697,22 @@ func (e *Exec) havocClause(env *Env, st *State, fc *FuncContract, m string) {
 	if _, ok := e.P.CS.Ghosts[m]; ok {
 		return
 	}
+	if name, argSrc, ok := ghostFieldLoc(e.P, m); ok {
+		k, _ := e.specType("", e.P.CS.GhostFields[name])
+		srt := sortsOf(k)[0]
+		if argSrc == "*" {
+			e.arrTerm(st, "GF_"+name, srt)
+			e.havocArr(st, "GF_"+name)
+			return
+		}
+		ex, err := parseExprSafe(argSrc)
+		if err != nil {
+			fatalf("%s: bad modifies entry %q", fc.Key, m)
+		}
+		base := e.evalExpr(env, ex)
+		e.upd(st, "GF_"+name, srt, base.t(), e.S.Fresh("mod_"+name, srt))
+		return
+	}
 	dot := strings.LastIndex(m, ".")
 	if dot < 0 {
 		fatalf("%s: bad modifies entry %q", fc.Key, m)
@@ -759,6 +783,15 @@ func (e *Exec) execInvoke(fr *Frame, st *State, in ssa.CallInstruction, c *ssa.C
 	if fc := e.P.ifaceMethodContract(c.Value.Type(), c.Method.Name()); fc != nil {
 		name := shortPkg(fc.PkgPath) + "." + lastSeg(fc.Recv.Type) + "." + c.Method.Name()
 		return e.callModular(fr, st, in.(ssa.Instruction), fc, nil, name, args, rt)
+	}
+	if n, ok := types.Unalias(c.Value.Type()).(*types.Named); ok && n.Obj().Pkg() != nil && !strings.HasPrefix(n.Obj().Pkg().Path(), modPath) {
+		e.note("unknown-stdlib: method %s.%s (result unconstrained, no heap effect assumed)", c.Value.Type(), c.Method.Name())
+		r := e.freshVal("res_"+sanitize(c.Method.Name()), rt, kindOf(rt))
+		e.typeFacts(r, rt, st)
+		return r
+	}
+	if c.Method.Name() == "Error" {
+		return vStr(e.S.Fresh("errtext", "String")).withT(rt)
 	}
 	e.note("uncontracted-call: %s invokes %s.%s (result and heap havocked)", dispName(fr.fn), c.Value.Type(), c.Method.Name())
 	e.havocAll(st)
@@ -838,4 +871,17 @@ func (e *Exec) softly(f func()) {
 		}
 	}()
 	f()
+}
+
+// ghostFieldLoc parses a modifies entry of the form name(expr) for a declared ghost field.
+func ghostFieldLoc(p *Prog, m string) (name, arg string, ok bool) {
+	i := strings.Index(m, "(")
+	if i <= 0 || !strings.HasSuffix(m, ")") {
+		return "", "", false
+	}
+	name = strings.TrimSpace(m[:i])
+	if _, is := p.CS.GhostFields[name]; !is {
+		return "", "", false
+	}
+	return name, strings.TrimSpace(m[i+1 : len(m)-1]), true
 }
